@@ -20,6 +20,7 @@ func init() {
 		c15IndexSafety(c)
 		wtPeekValidity(c, "C15.2b")
 		c15NegativeLengths(c)
+		c14LengthForms(c) // C15.3b: the 64-bit length reaches setReadRemaining verbatim (int64 of BigEndian.Uint64), so 2^63.. lengths are seen as negative and refused
 		wtClampAndSkip(c, "C15.4")
 		wtReadLimit(c, "C15.5")
 		c15Sticky(c)
